@@ -456,10 +456,12 @@ RECOMPUTE_MUST_KILL = {
 }
 
 
-def recompute_complete(ctx, rule='recompute-rebuilds-what-it-reads'):
+def recompute_complete(ctx, rule='recompute-rebuilds-what-it-reads', only=None):
     D = DefUse(ctx)
     n = 0
     for (tq, meth), allowed in sorted(RECOMPUTED.items()):
+        if only is not None and (tq, meth) not in only:
+            continue
         fns = [f for f in ctx.F.insts(tq + '::' + meth) if f.cfg]
         if not fns:
             raise AnalysisBroken('%s::%s is not instantiated' % (tq, meth))
@@ -490,7 +492,7 @@ def recompute_complete(ctx, rule='recompute-rebuilds-what-it-reads'):
                       'reads before writing only constants and %d tabulated buffers %s; %d fields overwritten as a whole' % (len(exc), exc, len(mk)) if not bad else
                       '%s() may read / append to %s before overwriting it: state of the previous %s on the same object leaks into this one' %
                       (meth, ', '.join(sorted(set(bad))), 'factorization' if meth != 'set_shift' else 'shift'))
-    if n < 20:
+    if n < (20 if only is None else 1):
         raise AnalysisBroken('only %d re-computable members analysed' % n)
 
 
